@@ -405,7 +405,8 @@ fn judge(c: &mut EraseCounts, w: usize, still_held: bool) {
 }
 
 fn erase_once(rng: &mut Rng, prog: &[Value], c: &mut EraseCounts) {
-    let mut slots: Vec<Option<Live>> = (0..8).map(|_| None).collect();
+    let nslots = prog.iter().map(|st| std::cmp::max(ju64(st, "slot"), ju64_or(st, "src", 0)) as usize + 1).max().unwrap_or(1);
+    let mut slots: Vec<Option<Live>> = (0..std::cmp::max(8, nslots)).map(|_| None).collect();
     let mut watch_next = 0usize;
     alloc::watch_clear_all();
     let held = |slots: &Vec<Option<Live>>, w: usize| slots.iter().flatten().any(|l| l.watch == w);
